@@ -221,7 +221,6 @@ func runC05(cfg Cfg, keys []string, ops []Op, res *TaskResult) *Violation {
 var c05BatchSync bool
 
 func c05Tasks(tier string) []Task {
-	preDepth, stageDepth, dev := 2, 4, 2
 	cfgs := []Cfg{defaultCfg}
 	c200 := defaultCfg
 	c200.FileSize = 200
@@ -230,12 +229,17 @@ func c05Tasks(tier string) []Task {
 	cs := c200
 	cs.Index = 2
 	cfgs = append(cfgs, c200, cb, cs)
-	if tier == "thorough" {
-		preDepth, stageDepth, dev = 3, 5, 3
-		cm := defaultCfg
-		cm.IO = 1
-		cfgs = append(cfgs, cm)
+	if tier != "thorough" {
+		return c05Level(cfgs, 2, 4, 2)
 	}
+	cm := defaultCfg
+	cm.IO = 1
+	cfgs = append(cfgs, cm)
+	// long staging sequences after short pre-histories, and the quick tier's staging after longer pre-histories
+	return append(c05Level(cfgs, 2, 5, 3), c05Level(cfgs, 3, 4, 2)...)
+}
+
+func c05Level(cfgs []Cfg, preDepth, stageDepth, dev int) []Task {
 	var pres [][]Op
 	var gen func(p []Op)
 	gen = func(p []Op) {
@@ -297,7 +301,7 @@ func init() {
 			if tier == "quick" {
 				return map[string]any{"pre_depth": 2, "stage_depth": 4, "deviation_bound": 2, "configs": 2, "staging_sequences": countSeq(c05Stage(), 4, 2)}
 			}
-			return map[string]any{"pre_depth": 3, "stage_depth": 6, "deviation_bound": 3, "configs": 4, "staging_sequences": countSeq(c05Stage(), 6, 3)}
+			return map[string]any{"levels": "pre<=2 x stage 5 dev 3; pre<=3 x stage 4 dev 2", "configs": 5, "staging_sequences_d5b3": countSeq(c05Stage(), 5, 3), "staging_sequences_d4b2": countSeq(c05Stage(), 4, 2)}
 		},
 		Replay: func(raw json.RawMessage) { seqReplayMain(raw, runC05) },
 	})
